@@ -15,7 +15,7 @@ CLAIM = {
  'note': ('Trusted: Lean kernel; model<->code correspondence of the row index lists on the cases of the run; the repository '
           'readers (subjects of C04/C06/C13) as the source of truth for frame values; LASRead (C09) as the output parser; '
           'LIS Units.convert (C17) for FEET <-> .1IN. Known findings F11 (LIS/BIT last frame, LIS well section, BIT STRP), '
-          'F19, F7 and the C11-specific classes of known_findings.d/C11.json are tagged by strict class predicates.'),
+          'F7 and the C11-specific classes of known_findings.d/C11.json are tagged by strict class predicates.'),
  'technique': 'Lean 4 proof (omega, induction on lists) + model-implementation correspondence + end-to-end oracle',
  'design_ref': 'DESIGN.md section 6 C11',
 }
@@ -33,6 +33,10 @@ ASSUMPTIONS = ['the frame values returned by a full read with the repository rea
 TRUSTED = ['modelled, not verified: builtin slice.indices()/range() (C15 model)',
            'exercised, not proved: readers, reductions (numpy), float formatting, LAS layout, LASRead parsing']
 
+ANCHOR_FILES = ['src/TotalDepth/RP66V1/ToLAS.py', 'src/TotalDepth/LIS/ToLAS.py', 'src/TotalDepth/BIT/ToLAS.py',
+                'src/TotalDepth/LAS/core/WriteLAS.py', 'src/TotalDepth/common/Slice.py', 'src/TotalDepth/util/bin_file_type.py',
+                'src/TotalDepth/RP66V1/core/LogicalFile.py', 'src/TotalDepth/common/LogPass.py']
+
 FAMS = ('RP66V1', 'LIS', 'BIT')
 REDUCTIONS = ('first', 'mean', 'median', 'min', 'max')
 
@@ -41,13 +45,9 @@ F_DROP = 'F11-lis-bit-last-frame-dropped'
 F_BIT1 = 'F11-bit-single-frame-dropped-indexerror'
 F_LISW = 'F11-lis-well-section-whole-pass'
 F_STRP = 'F11-bit-strp'
-F_F19 = 'F19-lis-channel-subset-typeerror'
 F_F7 = 'F7-lis-indirect-x-stepped'
-F_RPE = 'C11-rp66-empty-selection-raises'
-F_LISCOL = 'C11-lis-columns-run-together'
 F_LIS1 = 'C11-lis-single-record-stop-step-zero'
-F_LISLP = 'C11-lis-log-pass-without-cons-dropped'
-# the next two can only be reached once F19 is repaired (candidate patch in notes/): residual classes of that patch
+# residual classes of the F19 repair (reachable since /repo commit 'fix: LIS to LAS with a channel subset raised TypeError')
 F_LISX0 = 'C11-lis-subset-without-known-channel-x-garbage'
 F_LISSUB = 'C11-lis-subset-subchannel-granularity'
 
@@ -392,23 +392,6 @@ def read_truth(env, fam, path):
     return passes, stubs, extra
 
 
-def lis_kept_passes(seq):
-    """Class predicate of C11-lis-log-pass-without-cons-dropped: the converter starts a new LAS only at a CONS table that
-    follows a log pass, and keeps per group the first log pass with frames -> indices (among the passes with frames) of the
-    passes that get a LAS file, and the number of groups whose only log passes have no frames."""
-    kept, empty_groups = [], 0
-    cur = None          # the group's log pass: None / ['P', frames, id]
-    for e in seq + [['END']]:
-        if e[0] in ('C', 'END'):
-            if cur is not None:
-                if cur[1]: kept.append(cur[2])
-                else: empty_groups += 1
-                cur = None
-        elif cur is None or cur[1] == 0:
-            cur = e
-    return kept, empty_groups
-
-
 # ------------------------------------------------------------------ reference semantics (independent of the model)
 
 def py_rows(sel, n):
@@ -534,10 +517,6 @@ def evaluate_case(env, case, truth, res, outs, outdir, v):
     for k, p in enumerate(passes):
         if fam == 'BIT' and p.cols and drop_class(sel, p.n) and len(py_rows(sel, p.n)) == 1:
             abort_at, abort_finding = k, F_BIT1; break
-        if fam == 'RP66V1' and sel[0] == 'slice' and p.n > 0 and not py_rows(sel, p.n):
-            abort_at, abort_finding = k, F_RPE; break
-    if fam == 'LIS' and chans and passes:
-        abort_at, abort_finding = 0, F_F19
     if res.ignored:
         v.fail(f'source file not recognised as {fam}: reported type "{res.binary_file_type}"'); return
     if res.exception:
@@ -567,13 +546,7 @@ def evaluate_case(env, case, truth, res, outs, outdir, v):
             cand = list(outs)
         eval_passes = passes
         if not res.exception and len(cand) != len(passes):
-            kept, empty_groups = lis_kept_passes(extra.get('lis_seq', [])) if fam == 'LIS' else (None, 0)
-            if fam == 'LIS' and not empty_groups and len(kept) == len(cand) < len(passes):
-                v.fail(f'{len(passes)} log passes with frames in the source but {len(cand)} LAS file(s): log pass(es) '
-                       f'{[k for k in range(len(passes)) if k not in kept]} (not preceded by a CONS table) are not converted', F_LISLP)
-                eval_passes = [passes[k] for k in kept]
-            else:
-                v.fail(f'{len(passes)} log pass(es) in the source but {len(cand)} LAS file(s) for log passes: {outs}'); return
+            v.fail(f'{len(passes)} log pass(es) with frames in the source but {len(cand)} LAS file(s) for log passes: {outs}'); return
         pass_outs = list(zip(cand, eval_passes))[:n_eval]
     if not res.exception and res.las_count != len(outs):
         v.fail(f'result.las_count={res.las_count} but {len(outs)} LAS files written')
@@ -602,11 +575,7 @@ def evaluate_pass(env, case, p, las_path, v):
         v.fail(f'{tag}: LAS not readable ({err}); no requested channel exists and the implied X is uninitialised', F_LISX0)
         return None, None
     if las is None:
-        # LIS writes the values with no separator: class = some value (not first on its line) as wide as the field
-        if fam == 'LIS' and _lis_overflow(p, exp_cols, refs, lis_rows_written(sel, n), w, ff):
-            v.fail(f'{tag}: LAS not readable ({err}); a value is at least as wide as the field', F_LISCOL)
-        else:
-            v.fail(f'{tag}: LAS file not readable by LASRead: {err}')
+        v.fail(f'{tag}: LAS file not readable by LASRead: {err}')
         return None, None
     fa = las.frame_array
     rows = las.number_of_frames() if fa is not None else 0
@@ -733,20 +702,6 @@ def lis_rows_written(sel, n):
     return list(range(n)) if N >= n else list(range(0, n - N + 1, n // N))
 
 
-def _lis_overflow(p, exp_cols, refs, rows, w, ff):
-    """some value that is not separated from its predecessor prints at least as wide as the field (LIS writes
-    `f'{value:>{width}}'` with no separator; the implied X is followed by a blank)."""
-    safe = 2 if p.indirect else 1
-    for k, i in enumerate(exp_cols):
-        if k < safe:
-            continue
-        ref = refs[i]
-        for r in rows:
-            if len(format(float(ref[r]), ff)) >= w:
-                return True
-    return False
-
-
 def _f7_rows(p, obs):
     """frames whose implied X the known defect F7 corrupts: every selected frame of a record that is not the first
     selected record and whose first selected frame is not at offset 0 (only for a step > 1)."""
@@ -836,10 +791,8 @@ def random_selector(rng, n):
 
 def random_channels(rng, fam, p):
     r = rng.random()
-    # LIS: any non-empty subset fails the whole file today (F19) and nothing else can be checked on such a case
-    if r < (0.85 if fam == 'LIS' else 0.45) or not p.names:
+    if r < 0.45 or not p.names:
         return []
-    r = rng.random() * 0.55 + 0.45
     present = [nm for nm in p.names[1:]] or list(p.names)
     unknown = ['NOPE', 'ZZ9', 'no such', 'x y', '']
     k = rng.choice([1, 1, 2, 3, 5, len(present)])
